@@ -615,6 +615,22 @@ pub fn gen_input(rng: &mut Rng, corpus: &Corpus) -> Input {
     let fmt = if std::env::var("VMON_C03_TEXT_ONLY").is_ok() { 12 + rng.below(8) } else { rng.below(20) };
     if fmt < 11 {
         // dlt
+        if fmt == 10 && std::env::var("VMON_TINY").is_err() {
+            // a lifecycle scenario (several ECUs, boots, resumes, hostile timestamps, targeted confirm-then-merge patterns)
+            // written as a DLT file: the structured inputs on which the lifecycle bookkeeping (detection, listing,
+            // sorting) takes its rare paths; 1/3 with byte mutations on top
+            let s = match rng.below(3) {
+                0 => crate::lcgen::gen_targeted(rng),
+                1 => crate::lcgen::gen_scenario(rng, true, 120),
+                _ => crate::lcgen::gen_scenario(rng, false, 120),
+            };
+            let mut bytes = Vec::new();
+            for m in crate::lcgen::to_dlt(&s, 1) {
+                let _ = m.to_write(&mut bytes);
+            }
+            let m = if rng.chance(1, 3) { mutate_bytes(rng, &mut bytes, None) } else { "none".to_string() };
+            return Input { ext: "dlt", bytes, origin: "generated-lifecycle-scenario".into(), mutation: m };
+        }
         if rng.chance(1, 3) && !corpus.dlt.is_empty() {
             let (name, b) = rng.pick(&corpus.dlt);
             let l = if std::env::var("VMON_TINY").is_ok() { 100 + rng.usize_below(600) } else { 200 + rng.usize_below(20000) };
